@@ -126,9 +126,9 @@ theorem shr1Loop_snoc (l : List Nat) (x c : Nat) :
 
 theorem shr1_loop_bridge (a : List (BitVec 64)) :
     ∀ (n : Nat) (ret : List (BitVec 64)) (c : BitVec 64), n ≤ a.length → ret.length = a.length →
-      nats (Uint.shr1_with_carry_loop1 a n ret c).1 =
+      nats (Uint.shr1_with_carry_loop1 a.length a n ret c).1 =
           (shr1Loop (nats (a.take n)) c.toNat).1 ++ nats (ret.drop n) ∧
-      (Uint.shr1_with_carry_loop1 a n ret c).2.toNat = (shr1Loop (nats (a.take n)) c.toNat).2 := by
+      (Uint.shr1_with_carry_loop1 a.length a n ret c).2.toNat = (shr1Loop (nats (a.take n)) c.toNat).2 := by
   intro n
   induction n with
   | zero =>
